@@ -65,11 +65,12 @@ Init == l = 1 /\ TLCSet(1, 0) /\ Rec[1].e = "hist"
 
 \* which listed properties a wrong skip breaches
 WrongSkipProps(t) ==
-  {"C02"} \cup (IF rec[t].k # "full" /\ cause[t] \in {"fail", "cancel", "crash", "corrupt"} THEN {"C05"} ELSE {}) \cup Focus
+  {"C02", "C06"} \cup (IF (rec[t].k # "full" /\ cause[t] \in {"fail", "cancel", "crash"}) \/ cause[t] = "corrupt" THEN {"C05"} ELSE {}) \cup Focus
 
 Invoke(e) ==
   LET t == e.m.t
-      expected == IF Matches(rec[t], t) THEN "skip" ELSE "run"
+      \* a target without input is always executed, whatever lies in its state file (C03, repair of F11)
+      expected == IF h.targets[t].hasInput /\ Matches(rec[t], t) THEN "skip" ELSE "run"
       sc == e.m.script
       crash == e.m.crash
       fs1 == IF e.decision = "run" /\ crash \notin {"incr_checked", "incr_deleted", "incr_captured"}
@@ -84,7 +85,7 @@ Invoke(e) ==
   /\ CheckAll({"C03"} \cup Focus, <<"executed-although-nothing-changed", t>>,
               ~(e.decision = "run" /\ expected = "skip"))
   /\ CheckAll({"C05"}, <<"corrupt-state-file-is-an-error", t, e.result>>,
-              (rec[t].k = "garbage" /\ sc.outcome = "ok" /\ crash = "none") => e.result \in {"completed", "skipped"})
+              (cause[t] = "corrupt" /\ sc.outcome = "ok" /\ crash = "none") => e.result \in {"completed", "skipped"})
   /\ fs' = fs1
   /\ IF e.decision # "run"
      THEN UNCHANGED <<rec, cause>>
@@ -105,8 +106,12 @@ Step(e) ==
     [] e.e = "delete" -> /\ fs' = [fs EXCEPT ![e.m.p] = Absent] /\ UNCHANGED <<h, rec, cause>>
     [] e.e = "rename" -> /\ fs' = IF fs[e.m.from] = Absent THEN fs ELSE [fs EXCEPT ![e.m.to] = fs[e.m.from], ![e.m.from] = Absent]
                          /\ UNCHANGED <<h, rec, cause>>
-    [] e.e = "corrupt" -> /\ rec' = [rec EXCEPT ![e.m.t] = [k |-> "garbage"]]
-                          /\ cause' = [cause EXCEPT ![e.m.t] = "corrupt"] /\ UNCHANGED <<h, fs>>
+    [] e.e = "corrupt" ->
+         \* a copy of another target's complete state file decodes: zinoma can only compare it with the current state
+         \* (a foreign record that describes exactly t's declared resources as they are now is indistinguishable from t's own)
+         /\ rec' = [rec EXCEPT ![e.m.t] = IF e.m.flavour = "foreign" /\ rec[e.m.other].k = "full" THEN rec[e.m.other]
+                                           ELSE [k |-> "garbage"]]
+         /\ cause' = [cause EXCEPT ![e.m.t] = "corrupt"] /\ UNCHANGED <<h, fs>>
     [] e.e = "clean" -> /\ rec' = [rec EXCEPT ![e.m.t] = None] /\ cause' = [cause EXCEPT ![e.m.t] = "cleaned"]
                         /\ fs' = [p \in DOMAIN fs |-> IF p \in OutSet(e.m.t) THEN Absent ELSE fs[p]] /\ UNCHANGED h
     [] e.e = "invoke" -> Invoke(e)
